@@ -10,7 +10,7 @@ from . import t4file
 class Recorder:
     """Sink: records the projected state of the stages it is interested in."""
 
-    STAGES = ('fill', 'inline', 'converted', 'dedup', 'pruned', 'final')
+    STAGES = ('lattice', 'fill', 'inline', 'converted', 'dedup', 'pruned', 'final')
 
     def __init__(self, pts2, max_cells=400):
         self.pts = [(a / 2.0, b / 2.0, c / 2.0) for a, b, c in pts2]
@@ -19,13 +19,19 @@ class Recorder:
         self.max_cells = max_cells
         self.too_big = False
         self.full_numbering = None
+        self.keys_before_lattice = None
 
     def __call__(self, stage, objs):
         self.names.append(stage)
+        if stage == 'complement':
+            self.keys_before_lattice = set(objs['cells'].keys())
         if stage not in self.STAGES or self.too_big:
             return
         try:
-            if stage in ('fill', 'inline'):
+            if stage == 'lattice':
+                if self.keys_before_lattice is not None:
+                    self.stages.append(self.lattice_stage(objs))
+            elif stage in ('fill', 'inline'):
                 if len(objs['cells']) > self.max_cells:
                     self.too_big = True
                     return
@@ -70,6 +76,23 @@ class Recorder:
         return rows
 
     # -- stages -------------------------------------------------------------
+    def lattice_stage(self, objs):
+        """The cells created by the lattice pass: universe they live in, what fills them (0 = nothing, i.e. the
+        element keeps the lattice cell's material) and the transformation that places the filling universe
+        (doubled integer origin, integer matrix: exact decks only)."""
+        elems = []
+        for key, cell in objs['cells'].items():
+            if key in self.keys_before_lattice:
+                continue
+            tr = tuple(cell.filltr) if cell.filltr else (0.0, 0.0, 0.0, 1.0, 0.0, 0.0, 0.0, 1.0, 0.0, 0.0, 0.0, 1.0)
+            vals = [2.0 * float(x) for x in tr[:3]] + [float(x) for x in tr[3:12]]
+            if any(abs(v - round(v)) > 1e-6 for v in vals):
+                raise ValueError('non-integer lattice placement %r' % (tr,))
+            elems.append({'key': int(key), 'u': int(cell.universe), 'fill': int(cell.fillid) if cell.fillid is not None else 0,
+                          'o2': [int(round(v)) for v in vals[:3]], 'm': [int(round(v)) for v in vals[3:]]})
+        return {'stage': 'lattice', 'kind': 'lattice', 'elems': elems, 'cells': [], 'rows': [], 'vols': [], 'renum': [],
+                'wit': []}
+
     def cell_stage(self, stage, objs):
         cells = []
         used = set()
